@@ -15,14 +15,14 @@ OPS = {"KW_EQ", "KW_GT", "KW_LT", "KW_GE", "KW_LE", "KW_NE", "KW_IN", "KW_NOT_IN
 LITS = {"NON_NEG_FLOAT", "NON_NEG_INTEGER", "STRING_LITERAL", "MINUS"}
 
 
+ALLP = ("C02", "C05", "C06", "C07", "C08", "C12", "C13", "C15")
+
+
 def tags_for(name):
-    if name == "STRING_LITERAL":      # salts and string operands: every property that quantifies over string contents
-        return ("C05", "C02", "C07", "C06", "C12", "C13", "C15")
-    if name in LITS:
-        return ("C05", "C02", "C07", "C06")
-    if name in OPS:
-        return ("C02", "C07", "C06")
-    return ("C07", "C02", "C06")
+    """every obligation on the scanner tables serves every property that quantifies over source TEXTS: a rule that takes
+    other text than documented changes which programs are grammatical (C06, C07), where trivia may stand (C08), which
+    operator / literal a text denotes (C02, C05) and what a salt or operand contains (C12, C13, C15)"""
+    return ALLP
 
 
 def lex_replay(o):
@@ -53,7 +53,7 @@ def link_lexer(ctx):
         T = ctx.memo("lex_tables", lambda: Tables(native))
     except Exception:
         return [Obl("lex:tables/dump", fn_main, "regex", "live lexer tables can be dumped", status=ERROR, backend="native",
-                    detail=traceback.format_exc()[-1500:], props=("C02", "C05", "C06", "C07", "C08"))]
+                    detail=traceback.format_exc()[-1500:], props=ALLP)]
     return lexer_obls(T, ctx)
 
 
@@ -170,13 +170,13 @@ def lexer_obls(T, ctx, tag=""):
         w = pk.witness()
         out.append(Obl("lex:main%s/" % tag + "%s.reachable" % name, fn_main, "regex", "rule %s is not dead (some text makes the scanner take it)" % name,
                        status=DISCHARGED if w is not None else REFUTED, backend="dfa", detail="witness %r" % (al.word(w) if w is not None else None),
-                       props=tags_for(name) + ("C08",), model=None if w is not None else {"witness": ""}))
+                       props=ALLP, model=None if w is not None else {"witness": ""}))
         if meta[name]["ignored"]:
             # a trivia consumer: whitespace chunk or one complete line comment
             ok_lang = ws_chunk | FP["LINE_COMMENT"]
             out.append(emptiness_obl("lex:main%s/" % tag + "%s.consumes-only-trivia" % name, fn_main,
                                      "ignored rule %s only ever consumes whitespace or one complete // comment" % name,
-                                     pk - ok_lang, al, ("C08", "C06"), replay=lex_replay))
+                                     pk - ok_lang, al, ALLP, replay=lex_replay))
             ign_ws = ign_ws | (pk & ws_chunk)
             ign_lc = ign_lc | (pk & FP["LINE_COMMENT"])
             continue
@@ -185,7 +185,7 @@ def lexer_obls(T, ctx, tag=""):
             out.append(Obl("lex:main%s/" % tag + "%s.documented" % name, fn_main, "regex", "token type %s is in the documented table" % name,
                            status=REFUTED, backend="table", detail="not documented", props=allp, model={"witness": al.word(w or [])}, replay=lex_replay))
             continue
-        tg = ("C08",) if name == opener else tags_for(name)
+        tg = tags_for(name)
         out.append(emptiness_obl("lex:main%s/" % tag + "%s.real⊆ref" % name, fn_main,
                                  "whenever the real scanner takes %s with match m, the documented scanner does too" % name,
                                  pk - FP[ref_name], al, tg, replay=lex_replay))
@@ -200,9 +200,9 @@ def lexer_obls(T, ctx, tag=""):
                            backend="table", detail="no rule of that name", props=tuple(sorted(set(tags_for(tname)) | {"C08", "C06"})), model={"witness": al.word(FP[tname].witness() or [])}, replay=lex_replay))
     # trivia coverage: every text the documented scanner starts with trivia on is handled by an ignored rule
     out.append(emptiness_obl("lex:main%s/" % tag + "whitespace.covered", fn_main, "a text starting with whitespace is consumed by an ignored whitespace rule",
-                             erase_marker(FP["WS"], al) - erase_marker(ign_ws, al), al, ("C08", "C06"), replay=lex_replay))
+                             erase_marker(FP["WS"], al) - erase_marker(ign_ws, al), al, ALLP, replay=lex_replay))
     out.append(emptiness_obl("lex:main%s/" % tag + "line-comment.ref⊆real", fn_main, "a complete // comment is consumed as one ignored chunk",
-                             FP["LINE_COMMENT"] - ign_lc, al, ("C08",), replay=lex_replay))
+                             FP["LINE_COMMENT"] - ign_lc, al, ALLP, replay=lex_replay))
     # error equivalence: the scanner has no pick exactly where the documented scanner rejects
     ref_union = DFA.empty(k)
     for d in FP.values():
@@ -210,9 +210,9 @@ def lexer_obls(T, ctx, tag=""):
     nonempty = dfa.plus(DFA.sym(k, al.all()))
     real_dom, ref_dom = erase_marker(real_tok_union, al), erase_marker(ref_union, al)
     out.append(emptiness_obl("lex:main%s/" % tag + "error.real-rejects⊆ref-rejects", fn_main, "where the real scanner calls error(), the documented scanner rejects",
-                             (nonempty - real_dom) - (nonempty - ref_dom), al, ("C06", "C07"), replay=lex_replay))
+                             (nonempty - real_dom) - (nonempty - ref_dom), al, ALLP, replay=lex_replay))
     out.append(emptiness_obl("lex:main%s/" % tag + "error.ref-rejects⊆real-rejects", fn_main, "where the documented scanner rejects, the real scanner calls error()",
-                             (nonempty - ref_dom) - (nonempty - real_dom), al, ("C06",), replay=lex_replay))
+                             (nonempty - ref_dom) - (nonempty - real_dom), al, ALLP, replay=lex_replay))
     # number syntax facts used by the token-function contracts (assumed contracts of float()/int() need them)
     dig = DFA.sym(k, al.symbols(["IN", [["CATEGORY", "CATEGORY_DIGIT"]]]))
     dot = DFA.sym(k, al.symbols(["LITERAL", 46]))
@@ -220,7 +220,7 @@ def lexer_obls(T, ctx, tag=""):
         if nm in RP.pick:
             lang = prefix_lang(RP.pick[nm], al)
             out.append(emptiness_obl("lex:main%s/" % tag + "%s.lexeme-syntax" % nm, fn_main, "every %s lexeme has the decimal syntax float()/int() accept" % nm,
-                                     lang - syn, al, ("C05",), replay=lex_replay))
+                                     lang - syn, al, ALLP, replay=lex_replay))
     # ------------------------------------------------------------------ block comment state
     if "BlockComment" in states:
         bc = states["BlockComment"]
@@ -229,7 +229,7 @@ def lexer_obls(T, ctx, tag=""):
             BP = Picks(bc_rules, al)
         except Unsupported as e:
             out.append(Obl("lex:comment%s/" % tag + "in-subset", fn_bc, "regex", "comment-state patterns inside the supported regex subset",
-                           status=UNDECIDED, backend="rxvc", detail=str(e), props=("C08",)))
+                           status=UNDECIDED, backend="rxvc", detail=str(e), props=ALLP))
             return out
         star_c = DFA.sym(k, al.symbols(["LITERAL", 42]))
         slash_c = DFA.sym(k, al.symbols(["LITERAL", 47]))
@@ -246,24 +246,24 @@ def lexer_obls(T, ctx, tag=""):
             pk = BP.pick[r.name]
             w = pk.witness()
             out.append(Obl("lex:comment%s/" % tag + "%s.reachable" % r.name, fn_bc, "regex", "comment-state rule %s is not dead" % r.name,
-                           status=DISCHARGED if w is not None else REFUTED, backend="dfa", detail="witness %r" % (al.word(w) if w is not None else None), props=("C08",)))
+                           status=DISCHARGED if w is not None else REFUTED, backend="dfa", detail="witness %r" % (al.word(w) if w is not None else None), props=ALLP))
             if r.name == ender:
                 out.append(emptiness_obl("lex:comment%s/" % tag + "END.stops-at-first-*/", fn_bc, "the END step consumes a chunk whose only `*/` is its suffix (the comment ends at the FIRST `*/`)",
-                                         pk - end_ok, al, ("C08",), replay=comment_replay))
+                                         pk - end_ok, al, ALLP, replay=comment_replay))
                 out.append(emptiness_obl("lex:comment%s/" % tag + "END.taken-when-line-has-*/", fn_bc, "if the rest of the line contains `*/`, the END step is taken (up to the first `*/`)",
-                                         end_ok - pk, al, ("C08",), replay=comment_replay))
+                                         end_ok - pk, al, ALLP, replay=comment_replay))
             else:
                 # any other step must consume a chunk without `*/` and may not split a `*/` pair
                 bad = dfa.cat(has_close, mk, allw) | dfa.cat(allw, star_c, mk, slash_c, allw)
                 out.append(emptiness_obl("lex:comment%s/" % tag + "%s.never-swallows-*/" % r.name, fn_bc, "a non-END step never consumes or splits a `*/`",
-                                         pk & bad, al, ("C08",), replay=comment_replay))
+                                         pk & bad, al, ALLP, replay=comment_replay))
         tot = DFA.empty(k)
         for r in bc_rules:
             tot = tot | BP.pick[r.name]
         out.append(emptiness_obl("lex:comment%s/" % tag + "total(no error inside comments)", fn_bc, "every non-empty remaining text is consumed by some comment-state rule",
-                                 dfa.plus(DFA.sym(k, al.all())) - erase_marker(tot, al), al, ("C08", "C06"), replay=comment_replay))
+                                 dfa.plus(DFA.sym(k, al.all())) - erase_marker(tot, al), al, ALLP, replay=comment_replay))
     else:
-        out.append(Obl("lex:comment%s/" % tag + "state-exists", fn_bc, "regex", "block comment state exists", status=UNDECIDED, backend="table", detail="no BlockComment class", props=("C08",)))
+        out.append(Obl("lex:comment%s/" % tag + "state-exists", fn_bc, "regex", "block comment state exists", status=UNDECIDED, backend="table", detail="no BlockComment class", props=ALLP))
     return out
 
 
@@ -353,7 +353,7 @@ def link_lexer_fns(ctx):
                 out.append(Obl("lex:%s/%s.function-under-contract" % (sname, r["name"]), LEXFN + sname + "." + fnname, "safety",
                                "token function %s.%s has a sidecar contract" % (sname, fnname),
                                status=DISCHARGED if q in reg.contracts else UNDECIDED, backend="table",
-                               detail="" if q in reg.contracts else "new token function without contract", props=("C05", "C06", "C08")))
+                               detail="" if q in reg.contracts else "new token function without contract", props=ALLP))
     bounded = bounded_lex(ctx, T)
     return out + bounded
 
